@@ -172,6 +172,77 @@ m("sh-epoch", "shuffle.perm", B+"common/shuffling.go", "UnshuffleList(uint8(spec
 m("cp-slice", "committee.partition", B+"common/shuffling.go", "endOffset := (validatorCount * (index + 1)) / committeeCount", "endOffset := (validatorCount * (index + 2)) / committeeCount", "NewShufflingEpoch.slices")
 m("cp-count", "committee.partition", B+"common/shuffling.go", "\tif committeesPerSlot == 0 {\n\t\tcommitteesPerSlot = 1\n\t}\n", "", "CommitteeCount")
 m("cp-sampling", "committee.partition", B+"common/sync_committee.go", "if effectiveBalance*0xff >= spec.MAX_EFFECTIVE_BALANCE*Gwei(randomByte) {", "if effectiveBalance*0xff > spec.MAX_EFFECTIVE_BALANCE*Gwei(randomByte) {", "sampling.acceptance")
+
+# ---- cmp.spec: one boundary flip per table entry, generated from the PICKS of gen_cmp_table.py
+import re, os, glob
+_src = open(os.path.join(os.path.dirname(os.path.abspath(__file__)), "gen_cmp_table.py")).read()
+_picks = eval(re.search(r"^PICKS = (\[.*?^\])", _src, re.S | re.M).group(1))
+_DIRS = {"phase0": B+"phase0", "altair": B+"altair", "bellatrix": B+"bellatrix", "capella": B+"capella", "deneb": B+"deneb",
+         "electra": B+"electra", "common": B+"common", "forkchoice": "eth2/forkchoice", "proto": "eth2/forkchoice/proto",
+         "gossipval": "eth2/gossipval", "pool": "eth2/pool"}
+_FLIP = {">=": ">", ">": ">=", "<=": "<", "<": "<=", "==": "!=", "!=": "=="}
+def _cmp_mutants():
+    seen = set()
+    for fn, text, spec in _picks:
+        pkg, rest = fn.split(".", 1)
+        name = rest.split(".")[-1]
+        recv = rest.split(".")[0] if "." in rest else None
+        mo = re.search(r"\s(>=|<=|==|!=|<|>)\s", text)
+        if not mo:
+            continue
+        new = text[:mo.start(1)] + _FLIP[mo.group(1)] + text[mo.end(1):]
+        for f in sorted(glob.glob("/repo/" + _DIRS[pkg] + "/*.go")):
+            if f.endswith("_test.go"):
+                continue
+            src = open(f).read()
+            if recv:
+                fm = re.search(r"^func \(\w+ \*?%s(\[[^\]]*\])?\) %s\(" % (re.escape(recv), re.escape(name)), src, re.M)
+            else:
+                fm = re.search(r"^func %s\(" % re.escape(name), src, re.M)
+            if not fm:
+                continue
+            end = src.find("\n}\n", fm.start())
+            i = src.find(text, fm.start(), end if end > 0 else len(src))
+            if i < 0:
+                continue
+            nth = src.count(text, 0, i) + 1
+            total = src.count(text)
+            mid = "cmp-%s-%d" % (fn.replace(".", "_"), len([1 for x in seen if x[0] == fn]) + 1)
+            seen.add((fn, text))
+            m(mid, "cmp.spec", f[len("/repo/"):], text, new, fn + "[", nth=(0 if total == 1 else nth), note=spec)
+            break
+_cmp_mutants()
+m("cmp-typed-weaken", "cmp.spec", "eth2/forkchoice/forkchoice.go", "fc.finalized != finalized", "fc.finalized.Epoch != finalized.Epoch", "updateJustified[type")
+
+# ---- rules added from the seeded-change rounds
+m("rm-cursor", "ring.mod", B+"capella/transition.go", "nextValidatorIndex := common.ValidatorIndex(uint64(latestWithdrawal.ValidatorIndex+1) % validatorCount)", "nextValidatorIndex := latestWithdrawal.ValidatorIndex + 1", "ProcessWithdrawals@SetNextWithdrawalValidatorIndex")
+m("rm-cursor-modulus", "ring.mod", B+"capella/transition.go", "uint64(spec.MAX_VALIDATORS_PER_WITHDRAWALS_SWEEP)) % validatorCount)", "uint64(spec.MAX_VALIDATORS_PER_WITHDRAWALS_SWEEP)) % uint64(spec.VALIDATOR_REGISTRY_LIMIT))", "ProcessWithdrawals@")
+m("rm-sweep", "ring.mod", B+"capella/transition.go", "validatorIndex = common.ValidatorIndex(uint64(validatorIndex+1) % validatorCount)", "validatorIndex = validatorIndex + 1", "GetExpectedWithdrawals@advance")
+m("rm-mix", "ring.mod", B+"phase0/randao.go", "\ti := uint64(epoch) % mixes.VectorLength\n\tr := RootView(mix)", "\ti := uint64(epoch)\n\tr := RootView(mix)", "RandaoMixesView.SetRandomMix")
+m("rm-root-key", "ring.mod", B+"phase0/history.go", "\ti := uint64(slot) % v.VectorLength\n\treturn AsRoot(v.Get(i))", "\ti := uint64(slot+1) % v.VectorLength - 1 + 0*uint64(slot)\n\treturn AsRoot(v.Get(i))", "BatchRootsView.GetRoot", note="index no longer a plain modulo")
+m("rm-slash", "ring.mod", B+"phase0/slashings.go", "\ti := uint64(epoch) % sl.VectorLength\n\treturn sl.Set(i, Uint64View(0))", "\ti := uint64(epoch) % uint64(8192)\n\treturn sl.Set(i, Uint64View(0))", "SlashingsView.ResetSlashings")
+m("cf-eject", "churn.flow", B+"deneb/registry.go", "\t\tchurnLimit := getValidatorActivationChurnLimit(spec, registerData.ChurnLimit)\n\t\tif uint64(len(dequeued)) > churnLimit {", "\t\tchurnLimit := getValidatorActivationChurnLimit(spec, registerData.ChurnLimit)\n\t\tif uint64(len(registerData.IndicesToEject)) > churnLimit {", "ProcessEpochRegistryUpdates@use")
+m("cf-unused", "churn.flow", B+"deneb/registry.go", "if uint64(len(dequeued)) > churnLimit {\n\t\t\tdequeued = dequeued[:churnLimit]", "if uint64(len(dequeued)) > registerData.ChurnLimit {\n\t\t\tdequeued = dequeued[:registerData.ChurnLimit+0*churnLimit]", "ProcessEpochRegistryUpdates@")
+
+
+F = "eth2/forkchoice/"
+m("ta-field-alias", "tree.alias", B+"common/general.go", "\tr := RootView(c.Root)\n\tres, _ := CheckpointType.FromFields(Uint64View(c.Epoch), &r)", "\tres, _ := CheckpointType.FromFields(Uint64View(c.Epoch), (*RootView)(&c.Root))", "Checkpoint.View")
+m("ta-header-alias", "tree.alias", B+"common/header.go", "\tsr := RootView(h.StateRoot)\n\tbr := RootView(h.BodyRoot)\n\tc, _ := BeaconBlockHeaderType.FromFields(\n\t\tUint64View(h.Slot),\n\t\tUint64View(h.ProposerIndex),\n\t\t&pr,\n\t\t&sr,", "\tsr := (*RootView)(&h.StateRoot)\n\tbr := RootView(h.BodyRoot)\n\tc, _ := BeaconBlockHeaderType.FromFields(\n\t\tUint64View(h.Slot),\n\t\tUint64View(h.ProposerIndex),\n\t\t&pr,\n\t\tsr,", "BeaconBlockHeader.View")
+m("ta-setter-alias", "tree.alias", B+"phase0/history.go", "func (v *BatchRootsView) SetRoot(slot common.Slot, r common.Root) error {\n\ti := uint64(slot) % v.VectorLength\n\trv := RootView(r)\n\treturn v.Set(i, &rv)", "func (v *BatchRootsView) SetRoot(slot common.Slot, r common.Root) error {\n\ti := uint64(slot) % v.VectorLength\n\treturn v.Set(i, (*RootView)(&r))", "XXnot-a-violation")
+m("ap-skip-first", "adjacent.pairs", B+"phase0/indexed.go", "for i := 1; i < len(indices); i++ {\n\t\tif indices[i-1] == indices[i] {", "for i := 2; i < len(indices); i++ {\n\t\tif indices[i-1] == indices[i] {", "ValidateIndexedAttestationIndicesSet")
+m("ap-stride", "adjacent.pairs", B+"phase0/indexed.go", "for i := 1; i < len(indices); i++ {\n\t\tif indices[i-1] == indices[i] {", "for i := 1; i < len(indices); i += 2 {\n\t\tif indices[i-1] == indices[i] {", "ValidateIndexedAttestationIndicesSet")
+m("ep-proposers", "epoch.pairing", B+"common/epochs_context.go", "ComputeProposers(epc.Spec, state, epc.CurrentEpoch.Epoch, epc.CurrentEpoch.ActiveIndices)", "ComputeProposers(epc.Spec, state, epc.CurrentEpoch.Epoch, epc.NextEpoch.ActiveIndices)", "LoadProposers->ComputeProposers")
+m("ep-sync", "epoch.pairing", B+"common/sync_committee.go", "ComputeSyncCommitteeIndices(spec, state, epc.NextEpoch.Epoch, epc.NextEpoch.ActiveIndices)", "ComputeSyncCommitteeIndices(spec, state, epc.NextEpoch.Epoch, epc.CurrentEpoch.ActiveIndices)", "ComputeNextSyncCommittee->ComputeSyncCommitteeIndices")
+m("sf-remove-new", "score.flow", F+"proto/votestore.go", "deltas[currentIndex-offset] -= SignedGwei(oldBal)", "deltas[currentIndex-offset] -= SignedGwei(newBal)", "ComputeDeltas.remove")
+m("sf-add-old", "score.flow", F+"proto/votestore.go", "deltas[nextIndex-offset] += SignedGwei(newBal)", "deltas[nextIndex-offset] += SignedGwei(oldBal)", "ComputeDeltas.add")
+m("sf-one-pass", "score.flow", F+"proto/proto_array.go", "\t\t\tdeltas[node.ForkchoiceParent-pr.indexOffset] += delta\n\t\t}\n\t}\n\tfor i := len(pr.nodes) - 1; i >= 0; i-- {\n\t\tnode := &pr.nodes[i]\n\t\tif node.ForkchoiceParent != NONE && node.ForkchoiceParent >= pr.indexOffset {", "\t\t\tdeltas[node.ForkchoiceParent-pr.indexOffset] += delta\n\t\t}\n\t\tif node.ForkchoiceParent != NONE && node.ForkchoiceParent >= pr.indexOffset {", "ApplyScoreChanges")
+m("sf-forward", "score.flow", F+"proto/proto_array.go", "\tfor i := len(pr.nodes) - 1; i >= 0; i-- {\n\t\tdelta := deltas[i]", "\tfor i := 0; i < len(pr.nodes); i++ {\n\t\tdelta := deltas[i]", "ApplyScoreChanges.weights.backwards")
+m("le-insubnet", "loop.exists", B+"common/epochs_context.go", "\t\t\tif valSubnet == subnet {\n\t\t\t\treturn true\n\t\t\t}", "\t\t\treturn valSubnet == subnet", "IndexedSyncCommittee.InSubnet")
+m("cu-relative", "cache.units", B+"common/validator_pubkeys.go", "\tpc.pub2idx[pub] = index\n\treturn pc, nil", "\tpc.pub2idx[pub] = index - pc.trustedParentCount\n\treturn pc, nil", "PubkeyCache.AddValidator")
+m("cu-absolute", "cache.units", B+"common/validator_pubkeys.go", "return &pc.idx2pub[index-pc.trustedParentCount], true", "return &pc.idx2pub[index], true", "PubkeyCache.unsafePubkey")
+m("pk-epoch", "pool.keys", "eth2/pool/attestations.go", "key := Assignment{Index: val, Epoch: att.Data.Target.Epoch}", "key := Assignment{Index: val, Epoch: att.Data.Source.Epoch}", "AttestationPool.AddAttestation")
+m("ar-wrapper", "assert.reach", B+"common/epochs_context.go", "XX", "XX", "XX")
+
 # lazy.init / lock.atomic positive cases are today's known findings (no mutant needed: they are violations on the tree)
 
 M = [x for x in M if not x["expect"].startswith("XX")]
